@@ -20,7 +20,7 @@ PROPS = {
              "carries constraints or there are >=2 answers; distinct = distinct case lines",
         trusted=SEARCH_TRUST,
         assumptions=["the oracle decides existence of hidden-variable values with an independent Robinson unifier (disequalities over an infinite universe)"],
-        open=["C02_reported_answer (Props/C02Answer.lean) closes the step from the semantic answer to the REPORTED one for lists of ==/!= atoms; for whole programs it applies to each delivered state (C02_program_exact: every delivered state is the state of one path); that `reify(x)` as a GOAL reaches `reifyFinal` unchanged on tree states (`enforce_constraints_fd` does nothing without finite domains) is carried by the correspondence"],
+        open=["C02_reported_answer (Props/C02Answer.lean) closes the step from the semantic answer to the REPORTED one for lists of ==/!= atoms; for whole programs it applies to each delivered state (C02_program_exact: every delivered state is the state of one path); `reify(x)` as a GOAL on the engine delivers exactly that reified state from a tree state: PROVED (C02_reify_goal); the composition with the `fresh(__query__)` wrapper of the query into one statement about `queryG` is definitional glue not stated as a theorem"],
     ),
     "C05": dict(
         title="depth-first search order",
